@@ -169,6 +169,11 @@ class PUSO(BO, PUSOMatrix):
         P = puso_to_pubo(self)
         P._mapping = self.mapping
         P._reverse_mapping = self.reverse_mapping
+        # P must know about every variable that self reports (also the ones
+        # that no longer appear in any term), because the ancilla labels of
+        # the reduced forms start at P.num_binary_variables.
+        P._variables = self.variables
+        P._num_binary_variables = self.num_binary_variables
         return P
 
     def to_pubo(self, deg=None, lam=None, pairs=None):
